@@ -48,5 +48,6 @@ package main
 //@   ensures [C17,C20] result != 0 ==> LOGGED[0] > old(LOGGED[0])
 
 //@ func (*showCmd).Execute
+//@   loop 1 invariant len(keys) > 0 ==> len(info.Sets) > 0
 //@   ensures [C17] FSWCOUNT[0] == old(FSWCOUNT[0])
 //@   ensures [C17,C20] result != 0 ==> LOGGED[0] > old(LOGGED[0])
